@@ -5,6 +5,7 @@ import (
 	"fmt"
 	"reflect"
 	"sort"
+	"strconv"
 	"strings"
 
 	"github.com/uhn/ggql/pkg/ggql"
@@ -100,9 +101,10 @@ func (sr *SynthResolver) synth(t ggql.Type, path string, depth int) interface{} 
 		}
 		return nil
 	case *ggql.Union:
-		if len(tt.Members) > 0 {
-			return &SynthNode{Type: tt.Members[0].Name(), Path: path}
-		}
+		// a synthetic node cannot be bound to a union member (its Go type is the
+		// same for every GraphQL type); the resulting error would carry the
+		// position of the member type inside the schema text, which legitimately
+		// moves with the arrangement of the document
 		return nil
 	case *ggql.Enum:
 		if vs := tt.Values(); len(vs) > 0 {
@@ -521,4 +523,145 @@ func canonLite(b *strings.Builder, v interface{}) {
 			b.WriteString(strconvQuote("<" + rv.Type().String() + ">"))
 		}
 	}
+}
+
+// Describe renders the schema of a root through its public API in a canonical
+// form: types sorted by name; with sortMembers also fields, enum values, union
+// members, interfaces and input fields sorted by name (a member moved into an
+// extend block lands at the end of its type, which is not a different schema).
+// Directive uses are shown with the directive's declared argument defaults
+// filled in, as the loader only fills them for directives it already knows.
+func Describe(root *ggql.Root, sortMembers bool) (out string) {
+	defer func() {
+		if r := recover(); r != nil {
+			out = fmt.Sprintf("PANIC in Describe: %v", r)
+		}
+	}()
+	dirUses := func(dus []*ggql.DirectiveUse) string {
+		var parts []string
+		for _, du := range dus {
+			if du == nil || du.Directive == nil {
+				continue
+			}
+			args := map[string]string{}
+			for k, av := range du.Args {
+				if av != nil {
+					args[k] = CanonLite(canonValue(av.Value))
+				}
+			}
+			if d, _ := root.GetType(du.Directive.Name()).(*ggql.Directive); d != nil {
+				var b strings.Builder
+				_ = d.Write(&b, false)
+				// declared defaults, read from the printed definition's argument list
+				for _, a := range directiveArgDefaults(b.String()) {
+					if _, has := args[a[0]]; !has {
+						args[a[0]] = a[1]
+					}
+				}
+			}
+			keys := make([]string, 0, len(args))
+			for k := range args {
+				keys = append(keys, k)
+			}
+			sort.Strings(keys)
+			s := "@" + du.Directive.Name() + "("
+			for _, k := range keys {
+				s += k + ":" + args[k] + ","
+			}
+			parts = append(parts, s+")")
+		}
+		sort.Strings(parts)
+		return strings.Join(parts, " ")
+	}
+	fieldDefs := func(fds []*ggql.FieldDef) []string {
+		var fs []string
+		for _, fd := range fds {
+			s := fd.Name() + "("
+			for _, a := range fd.Args() {
+				s += a.Name() + ":" + a.Type.Name() + "=" + CanonLite(canonValue(a.Default)) + " " + dirUses(a.Dirs) + ","
+			}
+			s += "):" + fd.Type.Name() + " " + dirUses(fd.Dirs) + " desc=" + strconv.Quote(fd.Desc)
+			fs = append(fs, s)
+		}
+		if sortMembers {
+			sort.Strings(fs)
+		}
+		return fs
+	}
+	var types []string
+	for _, t := range root.Types() {
+		if t.Core() {
+			continue
+		}
+		var b strings.Builder
+		fmt.Fprintf(&b, "%T %q desc=%q dirs=[%s]", t, t.Name(), t.Description(), dirUses(t.Directives()))
+		switch tt := t.(type) {
+		case *ggql.Schema:
+			b.WriteString(" fields=" + strings.Join(fieldDefs(tt.Fields()), ";"))
+		case *ggql.Object:
+			var is []string
+			for _, i := range tt.Interfaces {
+				is = append(is, i.Name())
+			}
+			if sortMembers {
+				sort.Strings(is)
+			}
+			b.WriteString(" implements=" + strings.Join(is, "&") + " fields=" + strings.Join(fieldDefs(tt.Fields()), ";"))
+		case *ggql.Interface:
+			b.WriteString(" fields=" + strings.Join(fieldDefs(tt.Fields()), ";"))
+		case *ggql.Union:
+			var ms []string
+			for _, m := range tt.Members {
+				ms = append(ms, m.Name())
+			}
+			if sortMembers {
+				sort.Strings(ms)
+			}
+			b.WriteString(" members=" + strings.Join(ms, "|"))
+		case *ggql.Enum:
+			var vs []string
+			for _, v := range tt.Values() {
+				vs = append(vs, string(v.Value)+" "+dirUses(v.Directives)+" desc="+strconv.Quote(v.Description))
+			}
+			if sortMembers {
+				sort.Strings(vs)
+			}
+			b.WriteString(" values=" + strings.Join(vs, ";"))
+		case *ggql.Input:
+			var fs []string
+			for _, f := range tt.Fields() {
+				fs = append(fs, f.Name()+":"+f.Type.Name()+"="+CanonLite(canonValue(f.Default))+" "+dirUses(f.Dirs))
+			}
+			if sortMembers {
+				sort.Strings(fs)
+			}
+			b.WriteString(" fields=" + strings.Join(fs, ";"))
+		}
+		types = append(types, b.String())
+	}
+	sort.Strings(types)
+	return strings.Join(types, "\n")
+}
+
+// directiveArgDefaults extracts (name, default) pairs from a printed directive
+// definition "directive @d(x: Int = 1, y: String) on ...".
+func directiveArgDefaults(def string) (out [][2]string) {
+	i := strings.Index(def, "(")
+	j := strings.Index(def, ") on ")
+	if i < 0 || j < i {
+		return
+	}
+	for _, part := range strings.Split(def[i+1:j], ", ") {
+		nv := strings.SplitN(part, " = ", 2)
+		if len(nv) != 2 {
+			continue
+		}
+		name := strings.SplitN(nv[0], ":", 2)[0]
+		v, err := ggql.ParseValueString(nv[1])
+		if err != nil {
+			continue
+		}
+		out = append(out, [2]string{strings.TrimSpace(name), CanonLite(canonValue(v))})
+	}
+	return
 }
